@@ -689,6 +689,85 @@ cmd_json(const char *tag, int start_ms, int level)
     free(copy);
 }
 
+/* ---- C12: a synthetic lattice in place of the one the search would build -------------------------------------
+ * synlat <final_ascr> <n nodes> <n links> then per node  <word hex> <sf> <fef> <lef>  and per link  <from> <to> <ascr> <ef>.
+ * Node 0 is the start, the last node the end.  The lattice is built with the library's own constructors
+ * (lattice_init_search, its node allocator, lattice_link) and put where the search caches its lattice, so that
+ * decoder_lattice(), lattice_bestpath(), lattice_posterior() and decoder_nbest() run on it unchanged. */
+static int
+cmd_synlat(char *line)
+{
+    fsg_search_t *fs = d ? (fsg_search_t *)d->search : NULL;
+    lattice_t *dag;
+    latnode_t **nodes;
+    char *tok, *save = NULL;
+    long fa, nn, nl, i;
+    if (fs == NULL)
+        return -1;
+#define NEXT() ((tok = strtok_r(NULL, " \t\r\n", &save)) != NULL)
+    strtok_r(line, " \t\r\n", &save);
+    if (!NEXT()) return -1;
+    fa = atol(tok);
+    if (!NEXT()) return -1;
+    nn = atol(tok);
+    if (!NEXT()) return -1;
+    nl = atol(tok);
+    if (nn < 1 || nn > 64)
+        return -1;
+    lattice_free(d->search->dag);
+    d->search->dag = NULL;
+    dag = lattice_init_search(d->search, fs->frame);
+    nodes = (latnode_t **)calloc(nn, sizeof(*nodes));
+    for (i = 0; i < nn; ++i) {
+        latnode_t *node = (latnode_t *)listelem_malloc(dag->latnode_alloc);
+        char *w;
+        memset(node, 0, sizeof(*node));
+        if (!NEXT()) return -1;
+        w = vt_unhex(tok, NULL);
+        node->wid = dict_wordid(dag->dict, w);
+        free(w);
+        if (node->wid == BAD_S3WID)
+            return -1;
+        node->basewid = dict_basewid(dag->dict, node->wid);
+        if (!NEXT()) return -1;
+        node->sf = (frame_idx_t)atol(tok);
+        if (!NEXT()) return -1;
+        node->fef = (int32)atol(tok);
+        if (!NEXT()) return -1;
+        node->lef = (int32)atol(tok);
+        node->id = (int32)i;
+        node->node_id = (int32)i;
+        node->reachable = TRUE;
+        node->next = dag->nodes;
+        dag->nodes = node;
+        ++dag->n_nodes;
+        nodes[i] = node;
+    }
+    for (i = 0; i < nl; ++i) {
+        long a, b, sc, ef;
+        if (!NEXT()) return -1;
+        a = atol(tok);
+        if (!NEXT()) return -1;
+        b = atol(tok);
+        if (!NEXT()) return -1;
+        sc = atol(tok);
+        if (!NEXT()) return -1;
+        ef = atol(tok);
+        if (a < 0 || a >= nn || b < 0 || b >= nn)
+            return -1;
+        lattice_link(dag, nodes[a], nodes[b], (int32)sc, (int32)ef);
+    }
+#undef NEXT
+    dag->start = nodes[0];
+    dag->end = nodes[nn - 1];
+    dag->final_node_ascr = (int32)fa;
+    d->search->dag = dag;
+    fprintf(vt_out, "{\"e\":\"SynLat\",\"nodes\":%ld,\"links\":%ld,\"cached\":%s}\n", nn, nl,
+            decoder_lattice(d) == dag ? "true" : "false");
+    free(nodes);
+    return 0;
+}
+
 /* ---- C02: everything a declarative Viterbi network needs, as plain tables ----------------------------
  * The search's own grammar (silence/alternate arcs added, nulls closed) through the public arc iterator, the
  * dictionary pronunciations, and - for the phones that occur - the context-dependent model of every (phone,
@@ -1271,6 +1350,11 @@ main(int argc, char *argv[])
             if (sscanf(line, "%*s %63s %ld %ld", tag, &a, &b) != 3)
                 return 3;
             cmd_json(tag, (int)a, (int)b);
+        } else if (!strcmp(cmd, "synlat")) {
+            if (cmd_synlat(line) < 0) {
+                fprintf(stderr, "bad synlat command\n");
+                return 3;
+            }
         } else if (!strcmp(cmd, "net")) {
             cmd_net();
         } else if (!strcmp(cmd, "senscr")) {
